@@ -942,14 +942,22 @@ LISTENER_SITES = frozenset([
 ])
 
 
+# `disconnect()` yields once between the CLOSING and the CLOSED notification when the transport is already gone
+# (fixes/C16-closing-cancellation-arrives-before-closed.patch, if committed).  For this model that is the same position as
+# `disconnect>wait_closed`: inside `disconnect()`, after the CLOSING listeners, before CLOSED — a cancellation there runs the
+# `finally` to CLOSED (cancelDirect on fClosing / cClosing).  Exercised by the coincidence family (0 violations).
+EXTRA_SITES = frozenset(['connection.py:disconnect>sleep'])
+
+
 def site_breaks(cases: list, impl: list) -> list:
     """One Disagreement per await site that the models do not name (first case that shows it).
     A site inside a function the models do not know (`file:helper>X`) is the known site `file:caller>X` when a caller
     on the same await chain is known to suspend in `X`: code moved into a helper suspends where it did before."""
     out, seen = [], set()
-    known_fns = {k.split('>', 1)[0] for k in _c10.KNOWN_SITES | LISTENER_SITES}
+    base = _c10.KNOWN_SITES | EXTRA_SITES
+    known_fns = {k.split('>', 1)[0] for k in base | LISTENER_SITES}
     for c, io in zip(cases, impl):
-        known = _c10.KNOWN_SITES | LISTENER_SITES if ('ops' in c and _has_holds(c)) else _c10.KNOWN_SITES
+        known = base | LISTENER_SITES if ('ops' in c and _has_holds(c)) else base
         for site in io.get('sites', []):
             if site in known or site in seen:
                 continue
